@@ -1,5 +1,6 @@
 """C14 — any single allocation failure is survived cleanly."""
 from lib import *  # noqa
+import re
 import ownrules
 import own
 import C01
@@ -485,6 +486,133 @@ def r_registered(prog, R):
     r.require(n >= 2, "fewer destroy sites in ares_hosts_file_add than confirmed by hand (%d)" % n)
 
 
+_INS = re.compile(r"^ares_htable_(\w+)_insert$")
+
+
+def _callee_names(prog, g, depth=3, seen=None):
+    seen = seen if seen is not None else set()
+    if g.key in seen or depth < 0:
+        return set()
+    seen.add(g.key)
+    out = set()
+    for b, i, c in g.calls():
+        if c.get("callee"):
+            out.add(c["callee"])
+            t = prog.resolve(g, c)
+            if t is not None and t.file.startswith("src/lib/") and not t.file.startswith("src/lib/dsa/"):
+                out |= _callee_names(prog, t, depth - 1, seen)
+    return out
+
+
+def _frees_param(prog, g, k):
+    """g releases its k-th parameter with a direct ares_free(param)"""
+    if k >= len(g.params):
+        return False
+    pn = g.params[k]["n"]
+    names = {pn}
+    for b, i, el in g.elements():       # the void* parameter of a destructor callback is first copied into a typed local
+        if el["k"] == "decl":
+            for v in el["vars"]:
+                if v.get("init") is not None and is_var(strip(v["init"]), pn):
+                    names.add(v["n"])
+        if el["k"] == "asg" and el["e"]["op"] == "=" and is_var(strip(el["e"].get("r")), pn) and strip(el["e"]["l"]).get("k") == "var":
+            names.add(strip(el["e"]["l"])["n"])
+    return any(c.get("callee") == "ares_free" and c.get("args") and strip(c["args"][0]).get("k") == "var" and strip(c["args"][0])["n"] in names for _, _, c in g.calls())
+
+
+def r_undo(prog, R):
+    r = R.rule("R-C14-UNDO", "an object released on a failure path was first taken out of the hash table it had been put into: between a successful ares_htable_*_insert(table, key, obj) "
+               "and the release of obj in the same function the table's remove is called (or the release goes through a function that unlinks the object)", floor=6,
+               analysis="path search from the success edge of the insert to a release of the object, removal calls as barriers, edges contradicting facts known at the insert pruned")
+    nsites = 0
+    for f in sorted(prog.funcs.values(), key=lambda x: x.key):
+        if not f.file.startswith("src/lib/") or f.file.startswith("src/lib/dsa/"):
+            continue
+        mf = None
+        for b, i, c in f.calls():
+            m = _INS.match(c.get("callee") or "")
+            if not m or len(c.get("args", [])) < 3:
+                continue
+            obj = strip(c["args"][-1])
+            if obj is None or obj.get("k") != "var" or not (obj.get("ty") or "").rstrip().endswith("*"):
+                continue
+            nsites += 1
+            fam, table, on = m.group(1), render(strip(c["args"][0])), obj["n"]
+            mf = mf or MustFacts(f)
+            # edges on which the insert failed
+            avoid = set()
+            for g in call_result_branches(f, c["callee"]):
+                if g["call"].get("id") == c.get("id"):
+                    pe = status_pass_edge(g)
+                    if pe:
+                        avoid.add((g["block"].id, pe[1]))
+            # edges that contradict what is known at the insert (entry->key != NULL ...)
+            known = set()
+            for cc, pp in mf.cond_facts_at(b, i):
+                op, l, rr = norm_cmp(cc, pp)
+                if l is not None:
+                    known.add((op, render(strip(l)), render(strip(rr)) if rr is not None else None))
+            neg = {"==": "!=", "!=": "==", "truth": "false", "false": "truth", "<": ">=", ">=": "<", ">": "<=", "<=": ">"}
+            for blk in f.blocks.values():
+                br = f.branch(blk)
+                if not br:
+                    continue
+                for pol, tgt in ((True, br[1]), (False, br[2])):
+                    ats = atoms(br[0], pol)
+                    if len(ats) != 1 or tgt is None:
+                        continue
+                    op, l, rr = norm_cmp(ats[0][0], ats[0][1])
+                    if l is None or op not in neg:
+                        continue
+                    if (neg[op], render(strip(l)), render(strip(rr)) if rr is not None else None) in known:
+                        avoid.add((blk.id, tgt))
+
+            def removal(el, fam=fam, table=table):
+                if el["k"] != "call":
+                    return False
+                cc = el["e"]
+                cn = cc.get("callee") or ""
+                if cn in ("ares_htable_%s_remove" % fam, "ares_htable_%s_destroy" % fam) and cc.get("args") and render(strip(cc["args"][0])) == table:
+                    return True
+                return False
+
+            def release(el, on=on):
+                if el["k"] != "call":
+                    return None
+                cc = el["e"]
+                for k2, a in enumerate(cc.get("args", [])):
+                    if is_var(strip(a), on):
+                        if cc.get("callee") == "ares_free":
+                            return "ares_free(%s)" % on
+                        t = prog.resolve(f, cc)
+                        if t is not None and _frees_param(prog, t, k2) and not any(x.endswith(("_remove", "_node_claim", "_node_destroy")) for x in _callee_names(prog, t)):
+                            return "%s(%s), which frees it without taking it out of any table" % (t.name, on)
+                return None
+
+            pred = reach_avoiding(f, b.id, avoid, removal, i + 1)
+            hit = None
+            for bid in [b.id] + list(pred):
+                blk = f.blocks[bid]
+                lo = i + 1 if (bid == b.id and bid not in pred) else 0
+                for j in range(lo, len(blk.els)):
+                    if removal(blk.els[j]):
+                        break
+                    w = release(blk.els[j])
+                    if w:
+                        hit = (blk, j, w)
+                        break
+                if hit:
+                    break
+            k = "fn=%s %s(%s, .., %s) undone before release" % (f.name, c["callee"], table, on)
+            if hit:
+                blk, j, w = hit
+                r.viol(k, f.name, f.loc(blk.els[j]), "after %s succeeded, a path reaches %s without ares_htable_%s_remove(%s, ..): the table keeps a pointer to freed memory and the next lookup of that key reads it" % (c["callee"], w, fam, table),
+                       trail=[f.loc(c["ln"])] + [f.loc(f.blocks[x].els[0]) for x in trail_to(pred, blk.id, b.id) if f.blocks[x].els][:8])
+            else:
+                r.ok(k, f.loc(c["ln"]))
+    r.require(nsites >= 6, "fewer hash-table insert sites than confirmed by hand (%d)" % nsites)
+
+
 def run(prog, R, tier):
     R.assume("a store into a struct field transfers ownership iff the library releases objects through that field somewhere (inferred), plus 9 container link fields")
     files = None if tier == "thorough" else ANCHORED
@@ -496,5 +624,6 @@ def run(prog, R, tier):
     ownrules.realloc_rule(prog, R, "R-C14-REALLOC")
     r_allocout(prog, R)
     r_registered(prog, R)
+    r_undo(prog, R)
     E = effects.Effects(prog)
     C01.r_once(prog, R, E, rid="R-C14-ONCE")
